@@ -3,8 +3,9 @@
 Full product: collection type (8) x save directory A (none, or one of the
 directories given as str / Path, with / without trailing slash) x tuple of
 recording path shapes for 1..3 reachable recordings x load directory B (none,
-A, another absolute directory, a relative directory; str / Path) x state of the
-target file (fresh / pre-existing).  Every case is one io.save and (when the
+A, another absolute directory, a relative directory; str / Path), on a fresh
+target file; plus, for every (type, A, shapes), a pre-existing target file
+(loaded without directory).  Every case is one io.save and (when the
 save succeeded) one io.load through a real file.  Reference model: lexical
 component arithmetic (models.audiopaths).
 """
@@ -28,8 +29,8 @@ RULE = (
     "full product of: collection type (8) x save directory A (none | each directory as str/Path, with/without trailing slash) x "
     "tuple of recording path shapes (quick: every 1-tuple and ordered pair over 8 shapes, every triple with <= 1 non-plain shape at "
     "each of the 3 positions; thorough: every tuple of length <= 3 over the 8 base shapes, 1-tuples/pairs over 13 shapes) x load "
-    "directory B (none | A | absolute | relative; str/Path) x target file fresh / pre-existing (quick: the pre-existing target is "
-    "crossed with type x A x shapes only, loaded without directory). Recording i is reachable through a "
+    "directory B (none | A | absolute | relative; str/Path) x target file fresh / pre-existing (the pre-existing target is "
+    "crossed with type x A x shapes, loaded without directory). Recording i is reachable through a "
     "different route per type (clip, sound event of a foreign recording, sequence, second clip, task clip, match). Non-trivial = a "
     "directory is given on save or on load. State = case descriptor."
 )
@@ -104,7 +105,7 @@ def bounds(tier):
         "collection_types": KINDS, "directories": dirs(tier), "save_dir_forms": len(a_forms(tier)),
         "load_dir_forms": b_forms(tier), "shapes": BASE_SHAPES + ([] if tier == "quick" else EXTRA_SHAPES),
         "shape_tuples": len(shape_tuples(tier)), "max_recordings": 3,
-        "target_states": ["fresh", "pre-existing" + (" (with B = none only)" if tier == "quick" else "")],
+        "target_states": ["fresh", "pre-existing (with B = none only)"],
         "routes": ROUTES,
     }
 
@@ -118,8 +119,8 @@ def cases_of(block):
     for shapes in shape_tuples(tier):
         for b in b_forms(tier):
             for pre in (False, True):
-                if pre and b is not None and tier == "quick":
-                    continue  # quick: the pre-existing target is crossed with everything but the load directory
+                if pre and b is not None:
+                    continue  # the pre-existing target is crossed with everything but the load directory
                 yield {"kind": block["kind"], "a": block["a"], "shapes": shapes, "b": b, "pre": pre}
 
 
